@@ -589,4 +589,80 @@ theorem convGatesM_modes_planKinds (n : ℕ) (hv : List ℕ) (oneQ : Gate → Ma
 
 end field5
 
+/-! ### validity read on the SOURCE sequence alone -/
+
+/-- a source gate the converter can handle: one qubit in range; or two distinct qubits in range and a CNOT, or a
+gate called CZ / CSIGN / SWAP (any letter case) -/
+def SrcOk (n : ℕ) (g : Gate) : Prop :=
+  (∃ q, g.qubits = [q] ∧ q < n) ∨
+  (∃ a b, g.qubits = [a, b] ∧ a < n ∧ b < n ∧ a ≠ b ∧
+    (isCnot g = true ∨ g.name.toUpper = "CZ" ∨ g.name.toUpper = "CSIGN" ∨ g.name.toUpper = "SWAP"))
+
+theorem twoQubitKind_of_upper (l : String) :
+    (l.toUpper = "CZ" → twoQubitKind true l = "Heralded CZ") ∧
+    (l.toUpper = "CSIGN" → twoQubitKind true l = "Heralded CZ") ∧
+    (l.toUpper = "SWAP" → twoQubitKind true l = "PERM") := by
+  refine ⟨fun h => ?_, fun h => ?_, fun h => ?_⟩ <;> (unfold twoQubitKind; simp only [h]; decide)
+
+theorem twoQubitKind_labels :
+    twoQubitKind true "postprocessed cnot" = "PostProcessed CNOT" ∧
+      twoQubitKind true "heralded cnot" = "Heralded CNOT" := by decide +kernel
+
+/-- relabelling a valid source sequence with ANY flags (one per CNOT) gives accepted (gate, label) pairs -/
+theorem gateOk_relabel (n : ℕ) : ∀ (gs : List Gate) (fl : List Bool), (∀ g ∈ gs, SrcOk n g) →
+    fl.length = (gs.filter isCnot).length → List.Forall₂ (GateOk n) gs (relabel gs fl)
+  | [], _, _, _ => by rw [relabel.eq_def]; exact List.Forall₂.nil
+  | g :: gs, fl, hok, hlen => by
+    have hok' : ∀ g' ∈ gs, SrcOk n g' := fun g' hg' => hok g' (List.mem_cons_of_mem _ hg')
+    have hg := hok g List.mem_cons_self
+    by_cases hc : isCnot g = true
+    · rw [List.filter_cons, if_pos hc] at hlen
+      cases fl with
+      | nil => simp at hlen
+      | cons f fs =>
+        have hlen' : fs.length = (gs.filter isCnot).length := by simpa using hlen
+        rw [relabel.eq_def]
+        simp only [hc, if_true]
+        refine List.Forall₂.cons ?_ (gateOk_relabel n gs fs hok' hlen')
+        rcases hg with h1 | ⟨a, b, hq, ha, hb, hab, _⟩
+        · exact Or.inl h1
+        · refine Or.inr ⟨a, b, hq, ha, hb, hab, ?_⟩
+          cases f
+          · exact Or.inr (Or.inr (Or.inl twoQubitKind_labels.2))
+          · exact Or.inr (Or.inr (Or.inr twoQubitKind_labels.1))
+    · have hc' : isCnot g = false := by simpa using hc
+      rw [List.filter_cons, if_neg hc] at hlen
+      rw [relabel.eq_def]
+      simp only [hc', Bool.false_eq_true, if_false]
+      refine List.Forall₂.cons ?_ (gateOk_relabel n gs fl hok' hlen)
+      rcases hg with h1 | ⟨a, b, hq, ha, hb, hab, hk⟩
+      · exact Or.inl h1
+      · refine Or.inr ⟨a, b, hq, ha, hb, hab, ?_⟩
+        obtain ⟨k1, k2, k3⟩ := twoQubitKind_of_upper g.name
+        rcases hk with hk | hk | hk | hk
+        · exact absurd hk hc
+        · exact Or.inr (Or.inl (k1 hk))
+        · exact Or.inr (Or.inl (k2 hk))
+        · exact Or.inl (k3 hk)
+
+/-- **a valid source sequence, labelled by the converter, is accepted gate by gate** -/
+theorem gateOk_labelCnots (n : ℕ) (gs : List Gate) (hok : ∀ g ∈ gs, SrcOk n g) :
+    List.Forall₂ (GateOk n) gs (labelCnots true gs) :=
+  gateOk_relabel n gs _ hok (cnotFlags_length true gs)
+
+theorem srcOk_qubits {n : ℕ} {g : Gate} (h : SrcOk n g) : g.qubits.length = 1 ∨ g.qubits.length = 2 := by
+  rcases h with ⟨q, hq, _⟩ | ⟨a, b, hq, _⟩
+  · left; rw [hq]; rfl
+  · right; rw [hq]; rfl
+
+theorem srcOk_name {n : ℕ} {g : Gate} (h : SrcOk n g) (hc : isCnot g = false)
+    (h2 : g.qubits.length = 2) : g.name.toUpper ≠ "POSTPROCESSED CNOT" := by
+  rcases h with ⟨q, hq, _⟩ | ⟨a, b, _, _, _, _, hk⟩
+  · rw [hq] at h2; cases h2
+  · rcases hk with hk | hk | hk | hk
+    · rw [hk] at hc; cases hc
+    · rw [hk]; decide
+    · rw [hk]; decide
+    · rw [hk]; decide
+
 end PM.C20
